@@ -160,30 +160,7 @@ func runC06(c *kit.Ctx) {
 		}
 	}
 
-	// the server's "no more results at all" ends the scan whatever the state of the region scanner
-	if isd := c.Anchor("", "scanner", "isDone"); isd != nil {
-		var mrIf *ssa.If
-		kit.Instrs(isd, func(in ssa.Instruction) {
-			iff, ok := in.(*ssa.If)
-			if !ok || mrIf != nil {
-				return
-			}
-			if cmp, ok := kit.CanonCmp(iff.Cond, true); ok && kit.IsNilConst(cmp.Y) {
-				if _, f := kit.FieldRead(cmp.X); f != nil && f.Name() == "MoreResults" {
-					mrIf = iff
-				}
-			}
-		})
-		good := mrIf != nil
-		if good {
-			kit.Instrs(isd, func(in ssa.Instruction) {
-				if r, ok := in.(*ssa.Return); ok && !mrIf.Block().Dominates(r.Block()) {
-					good = false
-				}
-			})
-		}
-		c.Check(good, isd, "more-results-first", isd.Pos(), "every verdict of isDone is reached through the test of the response's more_results flag", "isDone can answer without looking at more_results: when the server ends the scan mid-region (more_results=false with the region scanner still open) the client keeps asking with a scanner id the server already released")
-	}
+	moreResultsFirst(c)
 
 	// ---- R3 ---------------------------------------------------------------
 	c.StartRule("R3", "open/continue request provenance", 3)
@@ -375,5 +352,33 @@ func runC06(c *kit.Ctx) {
 			}
 			c.Check(guarded, upd, "byte-decrement-guarded", bo.Pos(), "the last byte is decremented only on the edge where it is not 0x00 (otherwise the key is shortened)", "the last byte of the region start key is decremented without excluding 0x00: it wraps to 0xff and the next start row lies beyond the region boundary (rows repeat, the scan does not end)")
 		})
+	}
+}
+
+// moreResultsFirst: shared by C06.R2 and C14.R1.
+func moreResultsFirst(c *kit.Ctx) {
+	// the server's "no more results at all" ends the scan whatever the state of the region scanner
+	if isd := c.Anchor("", "scanner", "isDone"); isd != nil {
+		var mrIf *ssa.If
+		kit.Instrs(isd, func(in ssa.Instruction) {
+			iff, ok := in.(*ssa.If)
+			if !ok || mrIf != nil {
+				return
+			}
+			if cmp, ok := kit.CanonCmp(iff.Cond, true); ok && kit.IsNilConst(cmp.Y) {
+				if _, f := kit.FieldRead(cmp.X); f != nil && f.Name() == "MoreResults" {
+					mrIf = iff
+				}
+			}
+		})
+		good := mrIf != nil
+		if good {
+			kit.Instrs(isd, func(in ssa.Instruction) {
+				if r, ok := in.(*ssa.Return); ok && !mrIf.Block().Dominates(r.Block()) {
+					good = false
+				}
+			})
+		}
+		c.Check(good, isd, "more-results-first", isd.Pos(), "every verdict of isDone is reached through the test of the response's more_results flag", "isDone can answer without looking at more_results: when the server ends the scan mid-region (more_results=false with the region scanner still open) the client keeps asking with a scanner id the server already released")
 	}
 }
